@@ -65,7 +65,7 @@ NEEDS = {
  "C02d_1": ("C02", "the bridged custom(msg) arm turns the handler's error into StdError::generic_err(err.to_string()) before converting", "a bridged exec/sudo handler returning a non-Std error (the Err path of the bridged arm does not finish under CBMC: outside the covered cells)"),
  "C02d_2": ("C02", "From<(Deps, Env)> for QueryCtx sets env.transaction to None", "a query whose caller's Env has transaction: Some(..), and a handler that reads it"),
  "C07d_1": ("C07", "the always arm moves events and msg_responses into the ReplyCtx and rebuilds `result` from what is left", "an always handler, a successful sub-message carrying events, and a handler that reads them from `result`"),
- "C07d_2": ("C07", "the uncovered-failure arm returns generic_err(format!(\"Reply id {} failed: {}.\")) instead of generic_err(error)", "a failed result under an id that has only a success method (the error TEXT is not observable in the harnesses: error text is stubbed)"),
+ "C07d_2": ("C07", "the uncovered-failure arm returns generic_err(format!(\"Reply id {} failed: {}.\")) instead of generic_err(error)", "a failed result under an id that has only a success method (the harnesses observe the error text through the echo error type's side channel since this seed)"),
  "C09d_1": ("C09", "typed modes accept bare JSON when the envelope is malformed", "a typed execute mode and data that is valid JSON but not an envelope (typed cells: CBMC does not finish)"),
  "C09d_2": ("C09", "JSON-level decode failure panics when env.transaction is None", "typed mode, well-formed envelope whose inner JSON does not decode, env.transaction == None (reaches from_json: uncovered)"),
  "C20_2": ("C20", "Remote.addr deserialised as a borrowed &'de str: owned strings (escapes) are rejected", "an address containing a character that JSON escapes; at the serde data-model level: any format handing out non-borrowed strings"),
